@@ -463,7 +463,7 @@ class Scheduler:
         self._points: dict = {}
         self._one_at = None
         self._one_pending = False
-        self._explicit = [tuple(x) for x in self.cfg.get("switches", [])]
+        self._explicit = [(x[0], x[1], x[2] if len(x) > 2 else "preempt", x[3] if len(x) > 3 else 0) for x in self.cfg.get("switches", [])]
         self._xi = 0
         self.sync_events = 0
         self._sync_p = float(self.cfg.get("sync_p", 0))
@@ -608,20 +608,14 @@ class Scheduler:
                     self.preemptions += 1
                     self._switch(cur, cand[int(self._rng.random() * len(cand))], "preempt", code, offset)
         elif mode == "explicit":
-            ex = self._explicit
-            i = self._xi
-            while i < len(ex) and ex[i][0] < s:
-                i += 1
-            if i < len(ex) and ex[i][0] == s:
-                self._xi = i + 1
-                tgt = ex[i][1]
-                if tgt < len(self.threads):
-                    t = self.threads[tgt]
+            e = self._x_next(s)
+            if e is not None and e[0] == s and e[2] == "preempt" and e[3] == 0:
+                self._xi += 1
+                if e[1] < len(self.threads):
+                    t = self.threads[e[1]]
                     if t is not cur and t.state in (RUNNABLE, PENDING):
                         self.preemptions += 1
                         self._switch(cur, t, "preempt", code, offset)
-            else:
-                self._xi = i
         return None
 
     def _sync_point(self, me: SThread, what: str, lock) -> None:
@@ -653,6 +647,14 @@ class Scheduler:
                 if cand:
                     self._one_sync_at = None
                     to = cand[int(self._rng.random() * len(cand))]
+        elif mode == "explicit":
+            e = self._x_next(self.steps)
+            if e is not None and e[2] == "preempt" and e[3] == n:
+                self._xi += 1
+                if e[1] < len(self.threads):
+                    t = self.threads[e[1]]
+                    if t is not me and t.state in (RUNNABLE, PENDING):
+                        to = t
         if to is not None:
             self.preemptions += 1
             if me.nheld > 0:
@@ -660,10 +662,19 @@ class Scheduler:
             else:
                 self.preempt_free += 1
             self.preempt_sync += 1
-            self._handoff(me, to, "preempt", what + lock.name)
+            self._handoff(me, to, "preempt", what + lock.name, n)
             me.baton.acquire()
             if self.aborting:
                 raise SchedAbort()
+
+    def _x_next(self, step: int):
+        """Explicit mode: the next recorded switch that is not yet overtaken by the execution."""
+        ex = self._explicit
+        i = self._xi
+        while i < len(ex) and (ex[i][0] < step or (ex[i][3] and ex[i][3] < self.sync_events)):
+            i += 1
+        self._xi = i
+        return ex[i] if i < len(ex) else None
 
     def _eligible(self, exclude) -> list:
         hold = self._hold
@@ -701,15 +712,11 @@ class Scheduler:
         if mode == "serial":
             return cand[0]
         if mode == "explicit":
-            ex = self._explicit
-            i = self._xi
-            while i < len(ex) and ex[i][0] < self.steps:
-                i += 1
-            self._xi = i
-            if i < len(ex) and ex[i][0] == self.steps:
-                self._xi = i + 1
+            e = self._x_next(self.steps)
+            if e is not None and e[0] == self.steps and e[2] != "preempt":
+                self._xi += 1
                 for t in cand:
-                    if t.idx == ex[i][1]:
+                    if t.idx == e[1]:
                         return t
             return cand[0]
         return cand[int(self._rng.random() * len(cand))]
@@ -718,9 +725,9 @@ class Scheduler:
         t.os_thread = _RealThread(target=self._boot, args=(t,), daemon=True, name=f"fsim-sched-{t.idx}")
         t.os_thread.start()
 
-    def _handoff(self, frm, to: SThread, reason: str, where: str):
+    def _handoff(self, frm, to: SThread, reason: str, where: str, sync_n: int = 0):
         self.switches.append((self.steps, to.idx))
-        self.switch_log.append((self.steps, frm.idx if frm is not None else -1, to.idx, reason, where))
+        self.switch_log.append((self.steps, frm.idx if frm is not None else -1, to.idx, reason, where, sync_n))
         self.now_us += self.tick_us
         if to.state == PENDING:
             to.state = RUNNABLE
@@ -860,7 +867,7 @@ class Scheduler:
             return cand[0]
         if self._mode == "explicit":
             ex = self._explicit
-            if ex and ex[0][0] == 0:
+            if ex and ex[0][2] == "start":
                 self._xi = 1
                 for t in cand:
                     if t.idx == ex[0][1]:
@@ -899,10 +906,71 @@ class Scheduler:
     def thread_name(self, idx: int) -> str:
         return "main" if idx < 0 else self.threads[idx].name
 
+    def schedule(self) -> list:
+        """[[step, thread index, reason], ...] - replayable with strategy "explicit"."""
+        return [[st, to, reason, sn] for (st, _frm, to, reason, _where, sn) in self.switch_log]
+
     def describe_switches(self, limit: int = 200) -> list:
         out = []
-        for (st, frm, to, reason, where) in self.switch_log[:limit]:
+        for (st, frm, to, reason, where, _sn) in self.switch_log[:limit]:
             out.append(f"step {st}: {self.thread_name(frm)} -> {self.thread_name(to)} ({reason} at {where})")
         if len(self.switch_log) > limit:
             out.append(f"... {len(self.switch_log) - limit} more switches")
         return out
+
+
+# ------------------------------------------------------------------------------------------ schedule minimisation
+def shrink_schedule(plan: dict, execute, budget: int = 60):
+    """SHRINKERS entry for `sched` plans: re-express the schedule taken as an explicit switch list and remove
+    pre-emptions (ddmin) while every violation signature of the plan keeps firing.  Yields at most one candidate."""
+    try:
+        res = execute(plan)
+    except Exception:                      # noqa: BLE001
+        return
+    want = {(v["rule"], v["key"]) for v in res["violations"]}
+    if not want or "schedule" not in res:
+        return
+    sched = res["schedule"]
+
+    def mk(switches):
+        cand = dict(plan)
+        cand["sched"] = {"strategy": "explicit", "switches": switches, "tick_us": plan["sched"].get("tick_us", 0), "timer_hold": 0,
+                         "from": plan["sched"].get("strategy")}
+        return cand
+
+    def fires(switches):
+        nonlocal budget
+        budget -= 1
+        try:
+            r = execute(mk(switches))
+        except Exception:                  # noqa: BLE001
+            return False
+        return want <= {(v["rule"], v["key"]) for v in r["violations"]}
+
+    if not fires(sched):
+        return
+    cur = list(sched)
+    n = 2
+    while budget > 0:
+        idx = [i for i, x in enumerate(cur) if x[2] == "preempt"]
+        if not idx:
+            break
+        chunk = max(1, len(idx) // n)
+        removed = False
+        i = 0
+        while i < len(idx) and budget > 0:
+            drop = set(idx[i:i + chunk])
+            cand = [x for j, x in enumerate(cur) if j not in drop]
+            if fires(cand):
+                cur = cand
+                removed = True
+                idx = [k for k, x in enumerate(cur) if x[2] == "preempt"]
+            else:
+                i += chunk
+        if not removed:
+            if chunk == 1:
+                break
+            n = min(len(idx), n * 2)
+        else:
+            n = max(2, n - 1)
+    yield mk(cur)
